@@ -658,7 +658,7 @@ var opTable = []struct {
 	w    int
 }{
 	{"create", 24}, {"revoke-existing", 12}, {"revoke-unknown", 6}, {"revoke-admin", 3}, {"revoke-revoked", 5},
-	{"http-auth", 12}, {"ws-auth", 10}, {"restart", 4}, {"create-as-user", 2}, {"revoke-as-user", 3}, {"revoke-commit-fails", 3}, {"create-insert-fails", 2}, {"revoke-delete-fails", 2}, {"create-burst", 3}, {"ws-many", 2}, {"revoke-during-lookups", 3},
+	{"http-auth", 12}, {"ws-auth", 10}, {"restart", 4}, {"create-as-user", 2}, {"revoke-as-user", 3}, {"revoke-commit-fails", 3}, {"create-insert-fails", 2}, {"revoke-delete-fails", 2}, {"create-burst", 2}, {"ws-many", 2}, {"revoke-during-lookups", 3},
 }
 
 // lockEvery: one sequence in lockEvery additionally revokes one token while a reader holds a lock (a busy timeout each)
@@ -880,12 +880,12 @@ func (s *seq) run(rng *rand.Rand, n int) {
 			}
 		case "create-burst":
 			// several clients ask for a token at the same moment: every answer is a different, working token
-			s.op(kind, "create 24 tokens from 12 clients at once")
+			s.op(kind, "create 16 tokens from 8 clients at once")
 			type ans struct {
 				code int
 				tok  string
 			}
-			out := make([][]ans, 12)
+			out := make([][]ans, 8)
 			var wg sync.WaitGroup
 			start := make(chan struct{})
 			for g := range out {
@@ -902,7 +902,7 @@ func (s *seq) run(rng *rand.Rand, n int) {
 			}
 			close(start)
 			wg.Wait()
-			s.r.Count("tokens_requested_concurrently", 24)
+			s.r.Count("tokens_requested_concurrently", 16)
 			for _, as := range out {
 				for _, a := range as {
 					if a.code < 200 || a.code > 299 || a.tok == "" {
@@ -969,10 +969,39 @@ func (s *seq) run(rng *rand.Rand, n int) {
 				s.r.Count("exclusive_lock_not_taken", 1)
 				continue
 			}
-			code := s.revoke(t, rig.AdminToken)
+			code := 0
+			if len(s.caseID)%2 == 0 {
+				code = s.revoke(t, rig.AdminToken)
+			}
+			// (every statement under the lock costs a busy timeout: half of these operations revoke, the other half look up)
+			// while the lock is still held and every look-up fails: a revoked token and a string that was never issued must
+			// not authenticate (any refusal will do - 401, 5xx)
+			probes := []struct{ tok, what string }{}
+			if rt, _, ok := m.pick(rng, false); ok {
+				probes = append(probes, struct{ tok, what string }{rt, "revoked"})
+			}
+			ut, ud := m.unknownToken(rng)
+			m.addPhantom(ut, ud)
+			probes = append(probes, struct{ tok, what string }{ut, "never-issued"})
+			if len(s.caseID)%2 == 0 {
+				probes = nil
+			} else if len(probes) > 1 {
+				probes = probes[(len(s.caseID)/2)%2 : (len(s.caseID)/2)%2+1]
+			}
+			for _, pr := range probes {
+				w := s.e.st.HTTP(http.MethodGet, accessPath, nil, bearer(pr.tok))
+				s.r.Count("look_ups_while_the_database_is_locked", 1)
+				if w.Code >= 200 && w.Code <= 299 {
+					release()
+					s.violate("invalid-token-accepted|while-the-database-is-locked|token="+pr.what, fmt.Sprintf("while another connection held the database's exclusive lock (every look-up fails), GET %s with a %s token answered %d %s", accessPath, pr.what, w.Code, clipBody(w.Body.String())), nil)
+					return
+				}
+			}
 			release()
-			s.r.Count("revokes_under_exclusive_lock", 1)
-			s.r.Count(fmt.Sprintf("revokes_under_exclusive_lock_status_%dxx", code/100), 1)
+			if code != 0 {
+				s.r.Count("revokes_under_exclusive_lock", 1)
+				s.r.Count(fmt.Sprintf("revokes_under_exclusive_lock_status_%dxx", code/100), 1)
+			}
 		case "revoke-revoked":
 			t, ti, ok := m.pick(rng, false)
 			if !ok {
@@ -1160,4 +1189,11 @@ func body(r *ev.Run) {
 			}
 		})
 	}
+}
+
+func clipBody(b string) string {
+	if len(b) > 200 {
+		return b[:200] + "..."
+	}
+	return b
 }
